@@ -69,6 +69,7 @@ def case_st(maxn):
             "seed": st.integers(0, 2**32),
             "meta": st.sampled_from(METAS),
             "tls": st.sampled_from(["1.3", "1.2"]),
+            "status": st.sampled_from([20, 20, 20, 21, 25, 29]),   # every 2x status carries a body
         })
     return build
 
@@ -76,7 +77,7 @@ def case_st(maxn):
 def expected(case):
     body = make_body(case["n"], case["content"], case["seed"])
     as_str = case["as_str"] and case["content"] != "random"
-    hdr = f"20 {case['meta']}\r\n".encode()
+    hdr = f"{case.get('status', 20)} {case['meta']}\r\n".encode()
     return hdr, body, as_str
 
 
@@ -90,7 +91,7 @@ def run_mem(case: dict):
     want = hdr + body
 
     def handler(req):
-        return GeminiResponse(status=20, meta=case["meta"], body=body.decode("utf-8") if as_str else body)
+        return GeminiResponse(status=case.get("status", 20), meta=case["meta"], body=body.decode("utf-8") if as_str else body)
 
     streams = {}
     infos = {}
@@ -243,6 +244,66 @@ def run_static(case: dict):
     return ok(total=len(want), **info)
 
 
+# ------------------------------------------------------------------ one long-lived static handler, files that change
+
+
+def history_case_st():
+    step = st.fixed_dictionaries({
+        "n": st.sampled_from([0, 1, 50, 914, 5000, 27034, 262143, 262144, 262145, 300000]),
+        "variant": st.integers(0, 3),                                   # which content of that length
+        "mtime": st.sampled_from(["now", "now", "same", "older", "much-older", "newer"]),
+        "how": st.sampled_from(["rewrite", "replace"]),                  # in place, or a new inode moved over the name
+        "requests": st.integers(1, 2),
+    })
+    return st.fixed_dictionaries({"steps": st.lists(step, min_size=2, max_size=6), "name": st.sampled_from(["page.gmi", "notes.txt"])})
+
+
+def run_history(case: dict):
+    """What is delivered is the file as it is *now*: a file is written, requested, replaced (with any mtime relation to
+    the previous version: newer, identical, older) and requested again through one long-lived StaticFileHandler."""
+    import os
+    import shutil
+
+    from vlib import scratch
+
+    setup_logging()
+    from nauyaca.protocol.request import GeminiRequest
+    from nauyaca.server.handler import StaticFileHandler
+
+    d = scratch.subdir("c06-hist")
+    try:
+        handler = StaticFileHandler(d)
+        path = os.path.join(d, case["name"])
+        base_t = 1_700_000_000
+        cur_t = base_t
+        served = 0
+        for i, stp in enumerate(case["steps"]):
+            body = make_body(stp["n"], "text", 0)
+            if stp["n"]:
+                body = bytes([0x41 + stp["variant"]]) + body[1:]
+            if stp["how"] == "replace" or not os.path.exists(path):
+                tmp = path + ".new"
+                with open(tmp, "wb") as f:
+                    f.write(body)
+                os.replace(tmp, path)
+            else:
+                with open(path, "wb") as f:
+                    f.write(body)
+            cur_t = {"now": cur_t + 10, "newer": cur_t + 100000, "same": cur_t, "older": cur_t - 5, "much-older": cur_t - 10**6}[stp["mtime"]]
+            os.utime(path, ns=(cur_t * 10**9, cur_t * 10**9))
+            for _ in range(stp["requests"]):
+                resp = handler.handle(GeminiRequest.from_line("gemini://localhost/" + case["name"]))
+                got = resp.body if isinstance(resp.body, bytes) else (resp.body or "").encode("utf-8")
+                served += 1
+                if resp.status != 20 or got != body:
+                    k = next((j for j in range(min(len(got), len(body))) if got[j] != body[j]), min(len(got), len(body)))
+                    return viol("stale-or-altered-content", f"step {i} ({stp['how']}, mtime {stp['mtime']}): the file now holds {len(body)} bytes, "
+                                f"the handler answered {resp.status} with {len(got)} bytes (first difference at {k})", steps=len(case["steps"]))
+        return ok(served=served, steps=len(case["steps"]))
+    finally:
+        shutil.rmtree(d, ignore_errors=True)
+
+
 _live = {}
 
 
@@ -254,11 +315,11 @@ def _live_ports():
     from vlib import livenet
 
     def handler(req):
-        # /<n>/<content>/<seed>/<s|b>?<meta index>
-        _, n, content, seed, kind = req.path.split("/")
+        # /<n>/<content>/<seed>/<s|b>/<status>?<meta index>
+        _, n, content, seed, kind, status = req.path.split("/")
         body = make_body(int(n), content, int(seed))
         meta = METAS[int(req.query or 0)]
-        return GeminiResponse(status=20, meta=meta, body=body.decode("utf-8") if kind == "s" else body)
+        return GeminiResponse(status=int(status), meta=meta, body=body.decode("utf-8") if kind == "s" else body)
 
     b = livenet.bg()
     for backend in ("stdlib", "pyopenssl"):
@@ -279,7 +340,7 @@ def run_live(case: dict):
     want = hdr + body
     v = ssl.TLSVersion.TLSv1_3 if case["tls"] == "1.3" else ssl.TLSVersion.TLSv1_2
     cctx = memnet.permissive_client_ctx(minv=v, maxv=v)
-    req = f"gemini://localhost/{case['n']}/{case['content']}/{case['seed']}/{'s' if as_str else 'b'}?{METAS.index(case['meta'])}\r\n".encode()
+    req = f"gemini://localhost/{case['n']}/{case['content']}/{case['seed']}/{'s' if as_str else 'b'}/{case.get('status', 20)}?{METAS.index(case['meta'])}\r\n".encode()
     streams = {}
     for backend in ("stdlib", "pyopenssl"):
         r = livenet.tls_fetch(ports[backend], req, cctx, reader={"drain": "drain", "slow": "slow", "slow1": "bursty",
@@ -330,6 +391,12 @@ def _bucket(case, v):
 
 
 LANES = [
+    Lane(name="static-history", run_case=run_history, strategy=history_case_st, budget={"quick": 1600, "thorough": 30000},
+         shards={"quick": 16, "thorough": 32},
+         nontrivial=lambda c, v: any(s["mtime"] in ("same", "older", "much-older") for s in c["steps"][1:]),
+         labels=lambda c, v: sorted({"mtime:" + s["mtime"] for s in c["steps"]} | {"how:" + s["how"] for s in c["steps"]}),
+         rule="one long-lived StaticFileHandler; a file written, requested, replaced with a newer / identical / older "
+              "mtime and requested again: the body must be the file's current bytes"),
     Lane(name="static-stall", run_case=run_static, strategy=static_case_st, budget={"quick": 480, "thorough": 6000},
          shards={"quick": 16, "thorough": 32}, nontrivial=lambda c, v: c["n"] > 16000 or c["stall"] > 0,
          labels=lambda c, v: [c["backend"], "stall:%d" % c["stall"], "tls" + c["tls"], "size:" + ("big" if c["n"] > 100000 else "small")],
